@@ -33,6 +33,8 @@ def candidates_stmt(prog):
             _stmt_sites(body, sites, f.ret is not None)
         blk, i = sites[k]
         s = blk[i]
+        if s.k == "credit":
+            continue          # not a source statement: the model's image of the EVM crediting msg.value on entry
         del blk[i]
         yield p2
         if s.k == "if":
